@@ -343,7 +343,10 @@ class ExcelModel:
             ))
 
             try:
+                n_books = len(self.books)
                 context = self.add_book(book)[1]
+                if len(self.books) > n_books:  # Names of the new book.
+                    stack.extend(self.books[context['excel']]['references'])
                 wk, context = self.add_sheet(rng['sheet'], context)
             except Exception as ex:  # Missing excel file or sheet.
                 log.warning('Error in loading `{}`:\n{}'.format(n_id, ex))
